@@ -11,6 +11,9 @@ func TestMain(m *testing.M) { vkit.Main(m) }
 func TestProp_Controlled(t *testing.T) { PartCtl.Run(t) }
 func TestProp_Stress(t *testing.T)     { PartStress.Run(t) }
 func TestProp_Crowd(t *testing.T)      { PartCrowd.Run(t) }
+func TestProp_Long(t *testing.T)       { PartLong.Run(t) }
+func TestProp_ReclaimGC(t *testing.T)  { PartReclaim.Run(t) }
+func TestProp_Hammer(t *testing.T)     { PartHammer.Run(t) }
 func TestRace_Stress(t *testing.T)     { PartStressRace.Run(t) }
 func TestEnum_KnownF21(t *testing.T)   { PartF21.Run(t) }
 
@@ -20,4 +23,7 @@ func TestReplay(t *testing.T) {
 	PartStressRace.Replay(t, 50)
 	PartF21.Replay(t, 1)
 	PartCrowd.Replay(t, 1)
+	PartLong.Replay(t, 1)
+	PartReclaim.Replay(t, 1)
+	PartHammer.Replay(t, 20)
 }
